@@ -563,7 +563,8 @@ Section OFileOps.
          RInt (Z.of_nat (length b))) end).
 
   Definition of_write_at (b : list N) (off : Z) : ofs * res :=
-    if Z.ltb off 0 then (s, RFail EG_NegativeOffset)
+    if has (hd_mode f) OpenAppend then (s, RFail EG_WriteAtInAppendMode)   (* refused on an O_APPEND handle, first of all *)
+    else if Z.ltb off 0 then (s, RFail EG_NegativeOffset)
     else match b with [] => (s, RInt 0) | _ =>            (* zero bytes: (0, nil) at once *)
       o_prologue EG_Closed (fun e => (s, RFail e)) (fun c nd =>
         if on_dir nd || negb (has (hd_mode f) OpenWrite)
